@@ -5108,7 +5108,13 @@ XPath::NodeTester::testNode(
             const XalanNode&        context,
             XalanNode::NodeType     nodeType) const
 {
-    if (nodeType != XalanNode::TEXT_NODE ||
+    if (nodeType == XalanNode::DOCUMENT_TYPE_NODE)
+    {
+        // A Xerces DOM has a node for the document type
+        // declaration, but the XPath data model doesn't...
+        return eMatchScoreNone;
+    }
+    else if (nodeType != XalanNode::TEXT_NODE ||
         shouldStripSourceNode(static_cast<const XalanText&>(context)) == false)
     {
         return eMatchScoreNodeTest;
